@@ -17,6 +17,27 @@ From Flocq Require Import Core BinarySingleNaN Mult_error.
 From Dasp Require Import Base.Float.
 Open Scope Z_scope.
 
+Lemma IZR_pow2 (k : Z) : 0 <= k -> IZR (2 ^ k) = bpow radix2 k.
+Proof. intros Hk. change (IZR (2 ^ k)) with (IZR (radix2 ^ k)). now rewrite IZR_Zpower. Qed.
+
+Lemma Ztrunc_scaled_range (x : R) (k : Z) : 0 <= k -> (-1 <= x < 1)%R ->
+  - 2 ^ k <= Ztrunc (x * bpow radix2 k) <= 2 ^ k - 1.
+Proof.
+  intros Hk [Hlo Hhi]. pose proof (bpow_gt_0 radix2 k) as P.
+  assert (L : (IZR (- 2 ^ k) <= x * bpow radix2 k)%R) by (rewrite opp_IZR, IZR_pow2 by lia; nra).
+  assert (U : (x * bpow radix2 k < IZR (2 ^ k))%R) by (rewrite IZR_pow2 by lia; nra).
+  split.
+  - rewrite <- (Ztrunc_IZR (- 2 ^ k)). now apply Ztrunc_le.
+  - destruct (Rle_or_lt 0 (x * bpow radix2 k)) as [Pos|Neg].
+    + rewrite Ztrunc_floor by exact Pos.
+      assert (Zfloor (x * bpow radix2 k) < 2 ^ k); [|lia].
+      apply lt_IZR. eapply Rle_lt_trans; [apply Zfloor_lb | exact U].
+    + rewrite Ztrunc_ceil by lra.
+      assert (Zceil (x * bpow radix2 k) <= 0).
+      { apply Zceil_glb. simpl. lra. }
+      assert (0 < 2 ^ k) by (apply Z.pow_pos_nonneg; lia). lia.
+Qed.
+
 Section G.
 Variables prec emax : Z.
 Context (prec_gt_0_ : Prec_gt_0 prec).
@@ -40,8 +61,6 @@ Proof. intros Hk. apply generic_format_bpow. unfold fexp, FLT_exp, emin. lia. Qe
 Lemma fmt_F2R (m e : Z) : Z.abs m < 2 ^ prec -> emin <= e -> generic_format radix2 fexp (F2R (Float radix2 m e)).
 Proof. intros Hm He. apply generic_format_FLT. now apply (FLT_spec radix2 emin prec _ (Float radix2 m e)). Qed.
 
-Lemma IZR_pow2 (k : Z) : 0 <= k -> IZR (2 ^ k) = bpow radix2 k.
-Proof. intros Hk. change (IZR (2 ^ k)) with (IZR (radix2 ^ k)). now rewrite IZR_Zpower. Qed.
 
 (* ---- the power-of-two constant, recognised on its bit pattern ---- *)
 Definition is_pow2 (c : bf) (k : Z) : bool :=
@@ -212,23 +231,6 @@ Proof.
   destruct x; try discriminate; unfold gto_Z_sat; now rewrite E.
 Qed.
 
-Lemma Ztrunc_scaled_range (x : R) (k : Z) : 0 <= k -> (-1 <= x < 1)%R ->
-  - 2 ^ k <= Ztrunc (x * bpow radix2 k) <= 2 ^ k - 1.
-Proof.
-  intros Hk [Hlo Hhi]. pose proof (bpow_gt_0 radix2 k) as P.
-  assert (L : (IZR (- 2 ^ k) <= x * bpow radix2 k)%R) by (rewrite opp_IZR, IZR_pow2 by lia; nra).
-  assert (U : (x * bpow radix2 k < IZR (2 ^ k))%R) by (rewrite IZR_pow2 by lia; nra).
-  split.
-  - rewrite <- (Ztrunc_IZR (- 2 ^ k)). now apply Ztrunc_le.
-  - destruct (Rle_or_lt 0 (x * bpow radix2 k)) as [Pos|Neg].
-    + rewrite Ztrunc_floor by exact Pos.
-      assert (Zfloor (x * bpow radix2 k) < 2 ^ k); [|lia].
-      apply lt_IZR. eapply Rle_lt_trans; [apply Zfloor_lb | exact U].
-    + rewrite Ztrunc_ceil by lra.
-      assert (Zceil (x * bpow radix2 k) <= 0).
-      { apply Zceil_glb. simpl. lra. }
-      assert (0 < 2 ^ k) by (apply Z.pow_pos_nonneg; lia). lia.
-Qed.
 
 (* `(x * 2^k.0) as iN` on the domain -1 <= x < 1: the product is exact, the cast truncates and
    does not saturate whenever the target holds [-2^k, 2^k - 1] *)
